@@ -8,32 +8,33 @@ From Verif.C13 Require Export Model.
      type Base  struct { ID int `json:"id"` }
      type Inner struct { X int `json:"x"` }
      type Elem  struct { Base; A int `json:"a"`; B int `json:"bee,omitempty"`; hidden int; H int `json:"-"`;
-                         P *Inner `json:"p"` }
+                         In Inner `json:"in"`; P *Inner `json:"p"` }
    a *[]Elem wrapped by objectGoSliceReflect, element wrappers = objectGoReflect, P aliases shared cells *)
 
-Record elem := mkE { eID : Z; eA : Z; eB : Z; eH : Z; eP : option nat }.
-Definition ezero := mkE 0 0 0 0 None.
-Inductive fld := FID | FA | FB | FH | FP | FBase.
+Record elem := mkE { eID : Z; eA : Z; eB : Z; eH : Z; eIn : Z; eP : option nat }.
+Definition ezero := mkE 0 0 0 0 0 None.
+Inductive fld := FID | FA | FB | FH | FIn | FP | FBase.
 Definition fupd := (fld * Z)%type.
 Definition app_upd (u : fupd) (e : elem) : elem :=
   match fst u with
-  | FID => mkE (snd u) (eA e) (eB e) (eH e) (eP e)
-  | FA => mkE (eID e) (snd u) (eB e) (eH e) (eP e)
-  | FB => mkE (eID e) (eA e) (snd u) (eH e) (eP e)
-  | FH => mkE (eID e) (eA e) (eB e) (snd u) (eP e)
+  | FID => mkE (snd u) (eA e) (eB e) (eH e) (eIn e) (eP e)
+  | FA => mkE (eID e) (snd u) (eB e) (eH e) (eIn e) (eP e)
+  | FB => mkE (eID e) (eA e) (snd u) (eH e) (eIn e) (eP e)
+  | FH => mkE (eID e) (eA e) (eB e) (snd u) (eIn e) (eP e)
   | _ => e
   end.
 Definition fget (f : fld) (e : elem) : option Z :=
   match f with FID => Some (eID e) | FA => Some (eA e) | FB => Some (eB e) | FH => Some (eH e) | _ => None end.
 
 (* property-name codes: 0 ID, 1 id, 2 A, 3 a, 4 B, 5 bee, 6 b, 7 H, 8 h, 9 P, 10 p, 11 Base, 12 base,
-   13 hidden, 14 zzz, 15 iD *)
+   13 hidden, 14 zzz, 15 iD, 16 In, 17 in *)
 Definition elem_fds : list fd :=
   [FD 11 None true true (Some [FD 0 (Some 1%N) true false None]);
    FD 2 (Some 3%N) true false None; FD 4 (Some 5%N) true false None;
-   FD 13 None false false None; FD 7 None true false None; FD 9 (Some 10%N) true false None].
+   FD 13 None false false None; FD 7 None true false None; FD 16 (Some 17%N) true false None;
+   FD 9 (Some 10%N) true false None].
 Definition uncap (n : N) : N :=
-  match n with 0 => 15 | 2 => 3 | 4 => 6 | 7 => 8 | 9 => 10 | 11 => 12 | _ => n end%N.
+  match n with 0 => 15 | 2 => 3 | 4 => 6 | 7 => 8 | 9 => 10 | 11 => 12 | 16 => 17 | _ => n end%N.
 (* 0 = nil mapper, 1 = TagFieldNameMapper("json", true), 2 = UncapFieldNameMapper() *)
 Definition mapper_of (m : N) : N -> option N -> option N :=
   match m with
@@ -43,7 +44,7 @@ Definition mapper_of (m : N) : N -> option N -> option N :=
   end.
 Definition fld_of_path (p : list nat) : option fld :=
   match p with
-  | [0; 0] => Some FID | [1] => Some FA | [2] => Some FB | [4] => Some FH | [5] => Some FP
+  | [0; 0] => Some FID | [1] => Some FA | [2] => Some FB | [4] => Some FH | [5] => Some FIn | [6] => Some FP
   | [0] => Some FBase | _ => None
   end.
 Definition finfo_of (m : N) := fields_info (mapper_of m) elem_fds.
@@ -53,13 +54,24 @@ Definition resolve (m : N) (name : N) : option fld :=
 (* toReflectValue(object literal -> struct): only fields with a js name are read from the literal,
    the others keep what the destination held *)
 Definition merge (m : N) (old new : elem) : elem :=
-  if N.eqb m 1 then mkE (eID new) (eA new) (eB new) (eH old) (eP new) else new.
+  if N.eqb m 1 then mkE (eID new) (eA new) (eB new) (eH old) (eIn new) (eP new) else new.
 
 Notation ist := (Model.ist elem).
 Notation step := (Model.istep elem ezero fupd app_upd).
 Definition st (s : ist) (o : pop elem fupd) : ist := fst (step s o).
 
-Record world := mkW { w_s : ist; w_cells : list Z; w_H : list (option nat) }.
+Notation fwst := (Model.fwst Z).
+Notation nst := (Model.nst elem Z).
+Definition set_in (z : Z) (e : elem) : elem := mkE (eID e) (eA e) (eB e) (eH e) z (eP e).
+Definition nstepE := Model.nstep elem ezero fupd app_upd Z eIn set_in Z (fun (u : Z) (_ : Z) => u).
+
+Record world := mkW { w_s : ist; w_cells : list Z; w_H : list (option nat);
+                      w_fws : list fwst; w_fc : list (option nat); w_fhs : list (option nat) }.
+Definition mkW3 (w : world) (s : ist) (cells : list Z) (H : list (option nat)) : world :=
+  mkW s cells H (w_fws w) (w_fc w) (w_fhs w).
+Definition to_nst (w : world) : nst := mkNst elem Z (w_s w) (w_fws w) (w_fc w) (w_fhs w).
+Definition of_nst (w : world) (n : nst) : world :=
+  mkW (n_s _ _ n) (w_cells w) (w_H w) (n_fws _ _ n) (n_fc _ _ n) (n_fhs _ _ n).
 
 Inductive hop :=
 | HGet (i : nat)                          (* H.push(arr[i]) *)
@@ -79,15 +91,24 @@ Inductive hop :=
 | HSetF (k : nat) (name : N) (z : Z)      (* strict: H[k][name] = z *)
 | HSetPX (k : nat) (z : Z)                (* strict: H[k].P.X = z *)
 | HKeys (k : nat)                         (* Object.keys(H[k]) *)
-| HDelF (k : nat) (name : N).             (* sloppy: delete H[k][name] *)
+| HDelF (k : nat) (name : N)              (* sloppy: delete H[k][name] *)
+| HGetIn (k : nat)                        (* FH.push(H[k].In)            a FIELD wrapper is handed out *)
+| HReadIn (c : nat)                       (* FH[c].X *)
+| HSetInX (c : nat) (z : Z)               (* strict: FH[c].X = z *)
+| HPutIn (k : nat) (z : Z)                (* strict: H[k].In = {X: z}    reassigns the field *)
+| HPutInBad (k : nat) (strict : bool)     (* H[k].In = 5                 conversion fails *)
+| HSameIn (k c : nat)                     (* H[k].In === FH[c] *)
+| HPutBad (i : nat) (strict : bool)       (* arr[i] = 5                  conversion fails *)
+| HDefNoVal (i : nat)                     (* Object.defineProperty(arr, i, {enumerable: true}) *)
+| HDefFNoVal (k : nat) (name : N).        (* Object.defineProperty(H[k], name, {enumerable: true}) *)
 
-Definition jelem := (Z * Z * Z * option Z)%type.
+Definition jelem := (Z * Z * Z * Z * option Z)%type.
 Inductive hout := XUnit | XErr | XVal (v : option Z) | XBool (b : bool) | XElem (e : option jelem)
                 | XKeys (l : list N).
 Record obsrec := mkObs { o_out : hout; o_go : list elem; o_cells : list Z; o_js : list jelem }.
 
 Definition render (cells : list Z) (e : elem) : jelem :=
-  (eID e, eA e, eB e, match eP e with Some c => nth_error cells c | None => None end).
+  (eID e, eA e, eB e, eIn e, match eP e with Some c => nth_error cells c | None => None end).
 
 Definition arr_len (w : world) := length (i_arr _ (w_s w)).
 Definition nhs (s : ist) := length (i_hs _ s).
@@ -160,12 +181,12 @@ Definition hidx (w : world) (k : nat) : option nat :=
 
 Definition hstep (m : N) (w : world) (o : hop) : world * hout :=
   let s := w_s w in
-  let keep s' := mkW s' (w_cells w) (w_H w) in
+  let keep s' := mkW3 w s' (w_cells w) (w_H w) in
   match o with
   | HGet i =>
       if Nat.ltb i (arr_len w) then
-        let (s1, h) := iget s i in (mkW s1 (w_cells w) (w_H w ++ [Some h]), XUnit)
-      else (mkW s (w_cells w) (w_H w ++ [None]), XUnit)
+        let (s1, h) := iget s i in (mkW3 w s1 (w_cells w) (w_H w ++ [Some h]), XUnit)
+      else (mkW3 w s (w_cells w) (w_H w ++ [None]), XUnit)
   | HPut i e => (keep (do_put m s i e), XUnit)
   | HPutH i k =>
       match hidx w k with
@@ -178,15 +199,15 @@ Definition hstep (m : N) (w : world) (o : hop) : world * hout :=
   | HPush e => (keep (do_put m s (arr_len w) e), XUnit)
   | HPop =>
       match arr_len w with
-      | 0 => (mkW s (w_cells w) (w_H w ++ [None]), XUnit)
+      | 0 => (mkW3 w s (w_cells w) (w_H w ++ [None]), XUnit)
       | S l =>
           let (s1, h) := iget s l in
-          (mkW (st (st s1 (PDel l)) (PLen l)) (w_cells w) (w_H w ++ [Some h]), XUnit)
+          (mkW3 w (st (st s1 (PDel l)) (PLen l)) (w_cells w) (w_H w ++ [Some h]), XUnit)
       end
   | HSplice a d items => (keep (do_splice m s a d items), XUnit)
   | HReverse => (keep (rev_steps s 0 (arr_len w / 2) (arr_len w)), XUnit)
   | HGoPut i e => (keep (if Nat.ltb i (arr_len w) then st s (PGoPut i e) else s), XUnit)
-  | HGoCell c z => (mkW s (upd (w_cells w) c z) (w_H w), XUnit)
+  | HGoCell c z => (mkW3 w s (upd (w_cells w) c z) (w_H w), XUnit)
   | HRead k => (w, XElem (option_map (render (w_cells w)) (hval w k)))
   | HGetF k name =>
       match hval w k with
@@ -208,7 +229,7 @@ Definition hstep (m : N) (w : world) (o : hop) : world * hout :=
   | HSetPX k z =>
       match hval w k with
       | Some e => match eP e with
-                  | Some c => (mkW s (upd (w_cells w) c z) (w_H w), XUnit)
+                  | Some c => (mkW3 w s (upd (w_cells w) c z) (w_H w), XUnit)
                   | None => (w, XErr)
                   end
       | None => (w, XErr)
@@ -221,6 +242,43 @@ Definition hstep (m : N) (w : world) (o : hop) : world * hout :=
   | HDelF k name =>
       match hval w k with
       | Some _ => (w, XBool (match fi_lookup name (finfo_of m) with Some _ => false | None => true end))
+      | None => (w, XErr)
+      end
+  | HGetIn k =>
+      let (n', _) := nstepE (to_nst w) (NGetF (match hidx w k with Some h => h | None => length (i_hs _ (w_s w)) end)) in
+      (of_nst w n', XUnit)
+  | HReadIn c => (w, XVal (fhdenote _ _ eIn (to_nst w) c))
+  | HSetInX c z =>
+      match fhdenote _ _ eIn (to_nst w) c with
+      | Some _ => (of_nst w (fst (nstepE (to_nst w) (NWriteF c z))), XUnit)
+      | None => (w, XErr)
+      end
+  | HPutIn k z =>
+      match hidx w k, hval w k with
+      | Some h, Some _ => (of_nst w (fst (nstepE (to_nst w) (NPutF h z))), XUnit)
+      | _, _ => (w, XErr)
+      end
+  | HPutInBad k strict =>
+      match hval w k with
+      | Some _ => (w, if strict then XErr else XUnit)
+      | None => (w, XErr)
+      end
+  | HSameIn k c =>
+      match hidx w k, hval w k with
+      | Some h, Some _ =>
+          match snd (nstepE (to_nst w) (NSameF h c)) with
+          | NB b => (w, XBool b)
+          | _ => (w, XErr)
+          end
+      | _, _ => (w, XErr)
+      end
+  | HPutBad i strict =>
+      (* objectGoSliceReflect._putIdx grows first, then the conversion fails and the cached wrapper is re-attached *)
+      (keep (if Nat.ltb i (arr_len w) then s else st s (PLen (S i))), if strict then XErr else XUnit)
+  | HDefNoVal i => (keep (st s (PPut i ezero)), XUnit)      (* value = undefined -> the zero Elem, no merge *)
+  | HDefFNoVal k name =>
+      match hval w k with
+      | Some _ => (w, match fi_lookup name (finfo_of m) with Some _ => XUnit | None => XErr end)
       | None => (w, XErr)
       end
   end.
@@ -238,8 +296,9 @@ Fixpoint hrun (m : N) (w : world) (ops : list hop) : list obsrec :=
 (* maps: map[string]int behind objectGoMapReflect / map[string]interface{} behind objectGoMapSimple *)
 
 Inductive mop := MSet (k : N) (v : Z) | MDel (k : N) | MGet (k : N) | MHas (k : N) | MKeys
-               | MDefine (k : N) (v : Z) | MGoSet (k : N) (v : Z) | MGoDel (k : N).
-Inductive mout := MU | MV (v : option Z) | MB (b : bool).
+               | MDefine (k : N) (v : Z) | MGoSet (k : N) (v : Z) | MGoDel (k : N)
+               | MDefNoVal (k : N).        (* Object.defineProperty(m, k, {enumerable: true}) *)
+Inductive mout := MU | MV (v : option Z) | MB (b : bool) | ME.
 Record mobs := mkMObs { m_out : mout; m_go : list (N * Z); m_js : list (N * Z) }.   (* sorted by key *)
 
 Fixpoint minsert (k : N) (v : Z) (l : list (N * Z)) : list (N * Z) :=
@@ -253,19 +312,81 @@ Fixpoint mremove (k : N) (l : list (N * Z)) : list (N * Z) :=
 Fixpoint mfind (k : N) (l : list (N * Z)) : option Z :=
   match l with [] => None | (k', v') :: r => if N.eqb k k' then Some v' else mfind k r end.
 
-Definition mstep (l : list (N * Z)) (o : mop) : list (N * Z) * mout :=
+(* [nilmap]: the wrapper of a nil typed Go map (reads work, every write is a TypeError; sets are run in strict
+   mode); [zero]: what a new key defined without a value holds (0 for map[string]int; -1 encodes nil for
+   map[string]interface{}) *)
+Definition mstep (nilmap : bool) (zero : Z) (l : list (N * Z)) (o : mop) : list (N * Z) * mout :=
+  if nilmap && match o with MSet _ _ | MDefine _ _ | MDefNoVal _ => true | _ => false end then (l, ME) else
   match o with
   | MSet k v | MDefine k v | MGoSet k v => (minsert k v l, MU)
+  | MDefNoVal k => (match mfind k l with Some _ => l | None => minsert k zero l end, MU)
   | MDel k => (mremove k l, MB true)
   | MGoDel k => (mremove k l, MU)
   | MGet k => (l, MV (mfind k l))
   | MHas k => (l, MB (match mfind k l with Some _ => true | None => false end))
   | MKeys => (l, MU)
   end.
-Fixpoint mrun (l : list (N * Z)) (ops : list mop) : list mobs :=
+Fixpoint mrun (nilmap : bool) (zero : Z) (l : list (N * Z)) (ops : list mop) : list mobs :=
   match ops with
   | [] => []
-  | o :: r => let (l1, x) := mstep l o in mkMObs x l1 l1 :: mrun l1 r
+  | o :: r => let (l1, x) := mstep nilmap zero l o in mkMObs x l1 l1 :: mrun nilmap zero l1 r
+  end.
+
+(* ------------------------------------------------------------------------------------------- *)
+(* plain slices and arrays: *[]interface{} (objectGoSlice), *[]int (objectGoSliceReflect), *[N]int
+   (objectGoArrayReflect); Go truncates / appends through the shared pointer, script grows again: the
+   specification is the list itself -- what Go cut off is gone, new slots hold the zero value *)
+
+Inductive gkind := GKIface | GKInt | GKArr.
+Inductive gop :=
+| GSet (i : nat) (z : Z) (strict : bool) | GDel (i : nat) | GLen (n : nat) (strict : bool) | GPush (z : Z) | GPop
+| GSort | GGoTrunc (n : nat) | GGoAppend (z : Z) | GGoSet (i : nat) (z : Z) | GDefNoVal (i : nat) | GGet (i : nat).
+Inductive gout := GU | GE | GVal (v : option (option Z)).      (* None = undefined, Some None = null *)
+Record gobs := mkGObs { g_out : gout; g_go : list (option Z); g_js : list (option Z) }.
+
+Definition gzero (k : gkind) : option Z := match k with GKIface => None | _ => Some 0%Z end.
+Definition ggrow (k : gkind) (l : list (option Z)) (n : nat) := l ++ repeat (gzero k) (n - length l).
+Definition gkey (o : option Z) : Z := match o with Some z => z | None => 0%Z end.
+Fixpoint ginsert (x : option Z) (l : list (option Z)) : list (option Z) :=
+  match l with
+  | [] => [x]
+  | y :: r => if (gkey x <? gkey y)%Z then x :: l else y :: ginsert x r
+  end.
+Definition gsort (l : list (option Z)) : list (option Z) := fold_left (fun acc x => ginsert x acc) l [].
+Definition is_arr (k : gkind) : bool := match k with GKArr => true | _ => false end.
+
+Definition gstep (k : gkind) (l : list (option Z)) (o : gop) : list (option Z) * gout :=
+  let len := length l in
+  match o with
+  | GSet i z strict =>
+      if Nat.ltb i len then (upd l i (Some z), GU)
+      else if is_arr k then (l, if strict then GE else GU)
+      else (upd (ggrow k l (S i)) i (Some z), GU)
+  | GDel i => (if Nat.ltb i len then upd l i (gzero k) else l, GU)
+  | GLen n strict =>
+      if is_arr k then (l, if strict then GE else GU)
+      else (if Nat.ltb n len then firstn n l else ggrow k l n, GU)
+  | GPush z => if is_arr k then (l, GE) else (l ++ [Some z], GU)
+  | GPop =>
+      match len with
+      | 0 => (l, GVal None)
+      | S n => if is_arr k then (upd l n (gzero k), GE)      (* element cleared, then "length" cannot be set *)
+               else (firstn n l, GVal (Some (nth n l None)))
+      end
+  | GSort => (gsort l, GU)
+  | GGoTrunc n => (if is_arr k then l else firstn n l, GU)
+  | GGoAppend z => (if is_arr k then l else l ++ [Some z], GU)
+  | GGoSet i z => (if Nat.ltb i len then upd l i (Some z) else l, GU)
+  | GDefNoVal i =>
+      if Nat.ltb i len then (upd l i (gzero k), GU)
+      else if is_arr k then (l, GE)
+      else (ggrow k l (S i), GU)
+  | GGet i => (l, GVal (if Nat.ltb i len then Some (nth i l None) else None))
+  end.
+Fixpoint grun (k : gkind) (l : list (option Z)) (ops : list gop) : list gobs :=
+  match ops with
+  | [] => []
+  | o :: r => let (l1, x) := gstep k l o in mkGObs x l1 l1 :: grun k l1 r
   end.
 
 (* ------------------------------------------------------------------------------------------- *)
@@ -336,7 +457,8 @@ Fixpoint shape_eqb (a b : gshape) {struct a} : bool :=
 Inductive tcase :=
 | TBits (bits : list bool)      (* round-trip / no-panic checks whose oracle is Go itself: all must hold *)
 | THist (m : N) (init : list elem) (cells : list Z) (ops : list hop) (obs : list obsrec)
-| TMap (init : list (N * Z)) (ops : list mop) (obs : list mobs)
+| TMap (nilmap : bool) (zero : Z) (init : list (N * Z)) (ops : list mop) (obs : list mobs)
+| TSlice (k : gkind) (init : list (option Z)) (ops : list gop) (obs : list gobs)
 | TGraph (g : graph) (root : jv) (shape : gshape)
 | TFail.
 
@@ -346,10 +468,10 @@ Definition onat_eqb (a b : option nat) : bool :=
   match a, b with Some x, Some y => Nat.eqb x y | None, None => true | _, _ => false end.
 Definition elem_eqb (a b : elem) : bool :=
   Z.eqb (eID a) (eID b) && Z.eqb (eA a) (eA b) && Z.eqb (eB a) (eB b) && Z.eqb (eH a) (eH b)
-  && onat_eqb (eP a) (eP b).
+  && Z.eqb (eIn a) (eIn b) && onat_eqb (eP a) (eP b).
 Definition jelem_eqb (a b : jelem) : bool :=
-  match a, b with (i1, a1, b1, p1), (i2, a2, b2, p2) =>
-    Z.eqb i1 i2 && Z.eqb a1 a2 && Z.eqb b1 b2 && oZ_eqb p1 p2 end.
+  match a, b with (i1, a1, b1, n1, p1), (i2, a2, b2, n2, p2) =>
+    Z.eqb i1 i2 && Z.eqb a1 a2 && Z.eqb b1 b2 && Z.eqb n1 n2 && oZ_eqb p1 p2 end.
 Fixpoint list_eqb {A} (f : A -> A -> bool) (l1 l2 : list A) : bool :=
   match l1, l2 with
   | [], [] => true
@@ -372,19 +494,31 @@ Definition obs_eqb (a b : obsrec) : bool :=
 Definition kv_eqb (a b : N * Z) : bool := N.eqb (fst a) (fst b) && Z.eqb (snd a) (snd b).
 Definition mout_eqb (a b : mout) : bool :=
   match a, b with
-  | MU, MU => true | MV x, MV y => oZ_eqb x y | MB x, MB y => Bool.eqb x y | _, _ => false end.
+  | MU, MU => true | ME, ME => true | MV x, MV y => oZ_eqb x y | MB x, MB y => Bool.eqb x y | _, _ => false end.
 Definition mobs_eqb (a b : mobs) : bool :=
   mout_eqb (m_out a) (m_out b) && list_eqb kv_eqb (m_go a) (m_go b) && list_eqb kv_eqb (m_js a) (m_js b).
 
-Definition world0 (init : list elem) (cells : list Z) : world := mkW (iinit _ init) cells [].
+Definition gout_eqb (a b : gout) : bool :=
+  match a, b with
+  | GU, GU => true | GE, GE => true
+  | GVal None, GVal None => true
+  | GVal (Some x), GVal (Some y) => oZ_eqb x y
+  | _, _ => false
+  end.
+Definition gobs_eqb (a b : gobs) : bool :=
+  gout_eqb (g_out a) (g_out b) && list_eqb oZ_eqb (g_go a) (g_go b) && list_eqb oZ_eqb (g_js a) (g_js b).
 
-Inductive texp := EBits | EHist (l : list obsrec) | EMap (l : list mobs) | EShape (s : option gshape) | ENever.
+Definition world0 (init : list elem) (cells : list Z) : world := mkW (iinit _ init) cells [] [] [] [].
+
+Inductive texp := EBits | EHist (l : list obsrec) | EMap (l : list mobs) | ESlice (l : list gobs)
+                | EShape (s : option gshape) | ENever.
 
 Definition expected (c : tcase) : texp :=
   match c with
   | TBits _ => EBits
   | THist m init cells ops _ => EHist (hrun m (world0 init cells) ops)
-  | TMap init ops _ => EMap (mrun init ops)
+  | TMap nm z init ops _ => EMap (mrun nm z init ops)
+  | TSlice k init ops _ => ESlice (grun k init ops)
   | TGraph g root _ => EShape (model_shape g root)
   | TFail => ENever
   end.
@@ -393,7 +527,8 @@ Definition check_case (c : tcase) : bool :=
   match c with
   | TBits bits => forallb (fun b => b) bits
   | THist m init cells ops obs => list_eqb obs_eqb obs (hrun m (world0 init cells) ops)
-  | TMap init ops obs => list_eqb mobs_eqb obs (mrun init ops)
+  | TMap nm z init ops obs => list_eqb mobs_eqb obs (mrun nm z init ops)
+  | TSlice k init ops obs => list_eqb gobs_eqb obs (grun k init ops)
   | TGraph g root shape =>
       match model_shape g root with Some s => shape_eqb shape s | None => false end
   | TFail => false
